@@ -31,8 +31,10 @@ PARAMETER_TYPE_TEMPLATE_DATA = 'template_data'
 
 BITPOS_START = 'bitpos_start'
 
-# A list of numbers that corresponds to missing values for a number of bits up to 64
-NUMERIC_MISSING_VALUES = [2 ** i - 1 for i in range(65)]
+# A list of numbers that corresponds to missing values for a number of bits
+# Widths of more than 64 bits are possible: 206YYY and 204YYY take any YYY up to 255,
+# 201YYY widens an element by up to 127 bits.
+NUMERIC_MISSING_VALUES = [2 ** i - 1 for i in range(512)]
 
 
 # Number of bits for represent number of bits used for difference
